@@ -5,6 +5,7 @@ import (
 	"go/token"
 	"reflect"
 	"strings"
+	"sync"
 
 	"github.com/ipfs/go-cid"
 	"github.com/ipld/go-ipld-prime/datamodel"
@@ -394,6 +395,17 @@ func fieldNameFromSchema(name string) string {
 
 var defaultTypeSystem schema.TypeSystem
 
+// inferredTypes remembers the schema type inferred for each Go type, so that
+// inferring a schema for the same Go type again (a second Wrap or Prototype
+// call with a nil schema type, two fields of the same slice type, or the
+// Prototype+Wrap pair inside ipld.Unmarshal) reuses the type already
+// registered in defaultTypeSystem instead of registering a duplicate name.
+// inferredMu guards both inferredTypes and defaultTypeSystem.
+var (
+	inferredMu    sync.Mutex
+	inferredTypes = make(map[reflect.Type]schema.Type)
+)
+
 func init() {
 	defaultTypeSystem.Init()
 
@@ -415,6 +427,15 @@ func init() {
 
 // inferSchema can build a schema from a Go type
 func inferSchema(typ reflect.Type, level int) schema.Type {
+	inferredMu.Lock()
+	defer inferredMu.Unlock()
+	return inferSchemaLocked(typ, level)
+}
+
+func inferSchemaLocked(typ reflect.Type, level int) schema.Type {
+	if inferred, ok := inferredTypes[typ]; ok {
+		return inferred
+	}
 	if level > maxRecursionLevel {
 		panic(fmt.Sprintf("inferSchema: refusing to recurse past %d levels", maxRecursionLevel))
 	}
@@ -438,7 +459,7 @@ func inferSchema(typ reflect.Type, level int) schema.Type {
 		for i := range fieldsSchema {
 			field := typ.Field(i)
 			ftyp := field.Type
-			ftypSchema := inferSchema(ftyp, level+1)
+			ftypSchema := inferSchemaLocked(ftyp, level+1)
 			fieldsSchema[i] = schema.SpawnStructField(
 				field.Name, // TODO: allow configuring the name with tags
 				ftypSchema.Name(),
@@ -454,6 +475,7 @@ func inferSchema(typ reflect.Type, level int) schema.Type {
 		}
 		typSchema := schema.SpawnStruct(name, fieldsSchema, nil)
 		defaultTypeSystem.Accumulate(typSchema)
+		inferredTypes[typ] = typSchema
 		return typSchema
 	case reflect.Slice:
 		if typ.Elem().Kind() == reflect.Uint8 {
@@ -465,13 +487,14 @@ func inferSchema(typ reflect.Type, level int) schema.Type {
 		if typ.Elem().Kind() == reflect.Ptr {
 			nullable = true
 		}
-		etypSchema := inferSchema(typ.Elem(), level+1)
+		etypSchema := inferSchemaLocked(typ.Elem(), level+1)
 		name := typ.Name()
 		if name == "" {
 			name = "List_" + etypSchema.Name()
 		}
 		typSchema := schema.SpawnList(name, etypSchema.Name(), nullable)
 		defaultTypeSystem.Accumulate(typSchema)
+		inferredTypes[typ] = typSchema
 		return typSchema
 	case reflect.Interface:
 		// these types must match exactly since we need symmetry of being able to
